@@ -117,13 +117,36 @@ func (m *Mast) Delete(ctx context.Context, key, value interface{}) error {
 		return fmt.Errorf("savePathForRoot: %w", err)
 	}
 	m.size--
-	for m.size < m.shrinkBelowSize && m.height > 0 {
+	for m.height > 0 {
+		// Mirror of the grow rule in Insert, so that the height depends only on
+		// the contents: a level is kept while more than branchFactor^height
+		// entries remain and some key still belongs to the top layer.
+		if m.size > m.shrinkBelowSize {
+			topHasKeys, err := m.topHasKeys(ctx)
+			if err != nil {
+				return fmt.Errorf("shrink: %w", err)
+			}
+			if topHasKeys {
+				break
+			}
+		}
 		err = m.shrink(ctx)
 		if err != nil {
 			return fmt.Errorf("shrink: %w", err)
 		}
 	}
 	return nil
+}
+
+func (m *Mast) topHasKeys(ctx context.Context) (bool, error) {
+	if m.root == nil {
+		return false, nil
+	}
+	node, err := m.load(ctx, m.root)
+	if err != nil {
+		return false, fmt.Errorf("load root: %w", err)
+	}
+	return len(node.Key) > 0, nil
 }
 
 func findEntry(ctx context.Context, m *Mast, key, value interface{}, options *findOptions) (*mastNode, int, error) {
